@@ -145,6 +145,7 @@ def main():
             for td, pr in (('float32', 'float64'), ('uint8', 'float32')): units.append(('tpl', which, n, S, K, td, pr))
     for td, pr in (('float32', 'float64'), ('float64', 'float32'), ('int8', 'float32'), ('uint8', 'float64'), ('float32', 'float32')):
         units += [('inv', 'pk1', td, pr), ('inv', 'tk1', td, pr), ('inv', 'tt', td, pr)]
+    units += [('miainv', 'float32', 3, -1, 2), ('miainv', 'uint8', 3, 0, 64)]
     units += [('mia', 1, 1, 1, 2, 2, 'float32'), ('mia', 2, 1, 1, 1, 2, 'float64'), ('tt', 2, 2, 'float32', 'float64'), ('tt', 3, 1, 'int8', 'float32'), ('tm', 'static', 'float64'), ('tm', 'static', 'float32'), ('frames',)]
     def work(sub, kind, *args):
         if kind == 'upd': C3.update_additivity(u, sub, args[0], args[1], args[2], args[3], timeout)
@@ -166,6 +167,7 @@ def main():
             fn_, key_, exp_, dist_ = {'pk1': (KI.partitioned_core1, KN.PM + '::PartitionedDistinguisherMixin._accumulate_core_1', (1, 1, 1), 'SNR'), 'tk1': (KI.template_core1, KN.TM + '::_TemplateBuildDistinguisherMixin._accumulate_core_1', (1, 1), 'TemplateBuild'),
                                       'tt': (KI.ttest_core, KN.TT + '::TTestThreadAccumulator._update_core', (1,), 'ttest')}[which]
             KI.report(sub, fn_(u, td, pr), '%s loop invariants, all extents symbolic, %s->%s' % ({'pk1': 'partitioned kernel 1', 'tk1': 'template build kernel 1', 'tt': 't-test kernel'}[which], td, pr), key_, timeout, exp_, native, dict(kind='kernel', dist=dist_, which=1, tdtype=td, precision=pr))
+        elif kind == 'miainv': KI.report(sub, KI.mia_core(u, *args), 'MIA kernel loop invariants, all extents symbolic, %s traces, %d bins from %s of width %s' % args, KN.MM + '::MIADistinguisherMixin._accumulate_core', timeout, [(1, 1, 1), (1, 1, 0)], native, dict(kind='kernel', dist='MIA', tdtype=args[0]))
         elif kind == 'tm': template_matching_update(u, sub, args[0], args[1], timeout)
         elif kind == 'frames': compute_frames(u, sub, timeout)
     P.run_units(rep, work, units)
@@ -187,7 +189,7 @@ def main():
     rep.assume('A1', 'A2', 'A3', 'A4', 'A5', 'A6', 'T-pyvc')
     rep.trust('numpy.linalg.pinv is an uninterpreted deterministic function', 'class indices reaching the kernels are -1 or 0..K-1 (established by the look-up table: C12)')
     rep.not_decided.append('"up to floating-point rounding of the chosen precision": arithmetic is real (A1); rounding is only sampled by the native stand-in (float32 and float64, all ordered partitions of up to 6 traces)')
-    rep.not_decided.append('partitioned kernel 1, template-build kernel 1 and the t-test kernel are proved by loop invariants with every extent symbolic (props/kernel_inv.py); the vectorised kernels 2 and the MIA kernel are proved for fully symbolic contents but small concrete extents (loops unrolled exactly): bounded in shape, stated per obligation')
+    rep.not_decided.append('partitioned kernel 1, template-build kernel 1 and the t-test kernel are proved by loop invariants with every extent symbolic (props/kernel_inv.py); the MIA kernel likewise for concrete dyadic uniform edges; the vectorised kernels 2 are proved for fully symbolic contents but small concrete extents (loops unrolled exactly): bounded in shape, stated per obligation')
     sys.exit(rep.finish('./check C01 --tier %s' % a.tier))
 
 if __name__ == '__main__':
